@@ -28,16 +28,23 @@ static void s_put_view(const char *name, const struct aws_byte_buf *str, const s
 }
 
 static void s_put_uri(const struct aws_uri *u) {
-    s_put_view("scheme", &u->uri_str, &u->scheme);
-    s_put_view("authority", &u->uri_str, &u->authority);
+    /* through the public accessors where uri.h has one (what a caller sees); the struct fields otherwise */
+    s_put_view("scheme", &u->uri_str, aws_uri_scheme(u));
+    s_put_view("authority", &u->uri_str, aws_uri_authority(u));
     s_put_view("userinfo", &u->uri_str, &u->userinfo);
     s_put_view("user", &u->uri_str, &u->user);
     s_put_view("password", &u->uri_str, &u->password);
-    s_put_view("host", &u->uri_str, &u->host_name);
-    s_put_view("path", &u->uri_str, &u->path);
-    s_put_view("query", &u->uri_str, &u->query_string);
-    s_put_view("path_and_query", &u->uri_str, &u->path_and_query);
-    printf("P port=%u\n", (unsigned)u->port);
+    s_put_view("host", &u->uri_str, aws_uri_host_name(u));
+    s_put_view("path", &u->uri_str, aws_uri_path(u));
+    s_put_view("query", &u->uri_str, aws_uri_query_string(u));
+    s_put_view("path_and_query", &u->uri_str, aws_uri_path_and_query(u));
+    printf("P port=%u\n", (unsigned)aws_uri_port(u));
+    /* an accessor must hand out the field itself */
+    if (aws_uri_scheme(u) != &u->scheme || aws_uri_authority(u) != &u->authority || aws_uri_host_name(u) != &u->host_name ||
+        aws_uri_path(u) != &u->path || aws_uri_query_string(u) != &u->query_string ||
+        aws_uri_path_and_query(u) != &u->path_and_query || aws_uri_port(u) != u->port) {
+        printf("P MONITOR accessor-does-not-return-its-field\n");
+    }
 }
 
 static int s_all_zero(const void *p, size_t n) {
@@ -48,6 +55,15 @@ static int s_all_zero(const void *p, size_t n) {
         }
     }
     return 1;
+}
+
+/* aws_uri_clean_up leaves a zeroed object (a second clean_up, or a look at a stale cursor, must be harmless) */
+static void s_clean_up_checked(struct aws_uri *uri) {
+    aws_uri_clean_up(uri);
+    if (!s_all_zero(uri, sizeof(*uri))) {
+        printf("P MONITOR clean_up-left-a-non-zeroed-aws_uri\n");
+    }
+    aws_uri_clean_up(uri); /* idempotent */
 }
 
 static void s_leak_check(long base) {
@@ -70,7 +86,7 @@ static void s_parse(const char *hex) {
                    uri.uri_str.buffer != in;
         printf("P uri_str len=%zu same=%d\n", uri.uri_str.len, same);
         s_put_uri(&uri);
-        aws_uri_clean_up(&uri);
+        s_clean_up_checked(&uri);
     } else {
         printf("P zeroed=%d\n", s_all_zero(&uri, sizeof(uri)));
     }
@@ -197,7 +213,7 @@ static void s_build(char **t, int n) {
             printf("P MONITOR len>capacity\n");
         }
         s_put_uri(&uri);
-        aws_uri_clean_up(&uri);
+        s_clean_up_checked(&uri);
     }
     s_leak_check(base);
     if (have_list) {
@@ -253,6 +269,7 @@ static int s_prefix_ok(const struct aws_byte_buf *buf, size_t pl) {
 static void s_coder(char **t, int n, int which) {
     struct aws_byte_buf buf;
     size_t pl, len;
+    long base = hc_live_blocks();
     if (n < 2 || !s_start_buf(&buf, t, n, 2, &pl)) {
         printf("bad-op\n");
         return;
@@ -291,6 +308,7 @@ static void s_coder(char **t, int n, int which) {
         printf("P enc rc=%s\n", hc_last_error_name());
     }
     aws_byte_buf_clean_up(&buf);
+    s_leak_check(base);
     free(in);
 }
 
@@ -380,7 +398,7 @@ static void s_query_op(const char *arg, int list, int via_uri) {
         } else {
             s_iter(uri.query_string, &uri);
         }
-        aws_uri_clean_up(&uri);
+        s_clean_up_checked(&uri);
     }
     s_leak_check(base);
     free(in);
